@@ -348,6 +348,8 @@ class ContractMixin:
             st.env[v] = self.make_param(st, v, kind)
         self._entry_env, self._entry_heap = dict(st.env), st.heap.snapshot()
         st.old = (st.heap.snapshot(), dict(st.env), st.alloc)
+        for ln in d.get("uses_lemmas", []):
+            st.assume(self.lemma_axiom(ln, self.lemmas[ln]))
         for text in d.get("requires", []):
             st.assume(self.spec_bool(text, st, fr, "assume"))
         if d.get("induction"):
